@@ -3,8 +3,7 @@ Line-protocol driver for the tool plans (C07) and the charged queries (C09).  Do
 counts and indices in decimal.  One answer line per input line.
 
 C07 — tool traces (forced mechanism outputs):
-  scalar <tool> <eps> <l> <u> <out> <x>*            tool ∈ mean var std sum nanmean nanvar nanstd nansum count
-  intsum <eps> <l> <u> <li> <ui> <out> <x>*
+  scalar <tool> <eps> <l> <u> <out> <x>*            tool ∈ mean var std sum nanmean nanvar nanstd nansum count intsum
       -> `1 <kind> <eps> <delta> <sens> <lower> <upper> <input> R <release>`
   axis <tool> <eps> <size> <nrec> (<l> <u>){size} <out>{size} <x>{nrec*size, record-major}
       -> `<size> (<kind> <eps> <delta> <sens> <lower> <upper> <input>){size} R <release>{size}`
@@ -83,12 +82,8 @@ def scalarLine : P String := do
   | "nanstd" => pure (showScalar (nanstdPlan n ε l u) (optF xs) out)
   | "nansum" => pure (showScalar (nansumPlan n ε l u) (optF xs) out)
   | "count" => pure (showScalar (countNonzeroPlan n ε) xs out)
+  | "intsum" => pure (showScalar (intSumPlan n ε l u (truncv l) (truncv u)) xs out)
   | _ => failure
-
-def intsumLine : P String := do
-  let ε ← pF; let l ← pF; let u ← pF; let li ← pF; let ui ← pF; let out ← pF
-  let xs ← pRest
-  pure (showScalar (intSumPlan xs.length ε l u li ui) xs out)
 
 def chunks {β : Type} (k : Nat) : Nat → List β → List (List β)
   | 0, _ => []
@@ -120,6 +115,8 @@ def axisLine : P String := do
   | "nanstd" => pure (showMulti (wrapAxis none size ε bnd (nanstdPlan nrec)) (rows.map optF) outs)
   | "nansum" => pure (showMulti (wrapAxis none size ε bnd (nansumPlan nrec)) (rows.map optF) outs)
   | "count" => pure (showMulti (wrapAxis 0 size ε bnd (fun e _ _ => countNonzeroPlan nrec e)) rows outs)
+  | "intsum" => pure (showMulti (wrapAxis 0 size ε bnd
+      (fun e l u => intSumPlan nrec e l u (truncv l) (truncv u))) rows outs)
   | _ => failure
 
 def histLine : P String := do
@@ -198,7 +195,6 @@ def step (_ : Unit) (ws : List String) : Unit × String :=
   let r : Option (String × List String) :=
     match ws with
     | "scalar" :: rest => scalarLine.run rest
-    | "intsum" :: rest => intsumLine.run rest
     | "axis" :: rest => axisLine.run rest
     | "hist" :: rest => histLine.run rest
     | "quantile" :: rest => quantileLine.run rest
